@@ -15,7 +15,14 @@ PROP = {'areas': [{'also': ['C01:monitor:104'],
             'only_prop': 'C04',
             'quick': 12000,
             'thorough': 2000000,
-            'tie_fields': ['out', 'done', 'ops', 'rq', 'uq', 'hq', 'ppub', 'cur']}],
+            'tie_fields': ['out', 'done', 'ops', 'rq', 'uq', 'hq', 'ppub', 'cur']},
+           {'area': 'c16',
+            'corpus': ['corpus/C16/witnesses.txt'],
+            'extra': ['table'],
+            'only_sig': '^c16-sound:RDupOnFirstDelivery',
+            'quick': 8000,
+            'thorough': 400000,
+            'tie_sig': '^$'}],
  'coq_target': 'Properties/C04.vo',
  'modelled': 'protocol.rs ProtocolState: handle_user_event, handle_network_event (opened / closed / incoming data / write completion), service '
              '(pending-connack / connected / pending-disconnect), get_next_service_timepoint, reset and every helper they call (operation table, three intake '
@@ -34,54 +41,54 @@ PROP = {'areas': [{'also': ['C01:monitor:104'],
          'response (outcome, state, completions, packet events, bytes, next service time, full bookkeeping snapshot) is compared (kind=tie, with the set of '
          "diverging fields); the extracted monitors of Engine/Monitors.v judge the IMPLEMENTATION's observation (kind=property, with the first observation at "
          'which the monitor turns false and the script that reproduces it). distinct = distinct command scripts; non-trivial = reached at least one '
-         'interesting predicate (x_interesting_predicates_reached)'}
+         'interesting predicate (x_interesting_predicates_reached) || SUBMISSION PREMISE: the run-level theorems assume that a submitted PUBLISH has DUP = 0; '
+         'the clients guarantee it by validate_packet_outbound, which the validation area checks against the real function on every run (a packet with DUP = 1 '
+         'or a preset packet id accepted at submission is a failing input for this property).'}
 
 META = {'design_ref': 'DESIGN.md section 7 / C04',
  'level_note': 'Trusted: Coq kernel; the tie (facade engine.rs, harness, OCaml driver incl. the generator); the reference codec used by the simulated broker '
                '(SpecDecodeC2S / SpecEncodeS2C); abstract component hypotheses of the engine theorems (no-panic of codec / validators / resolvers) are '
                'discharged in the codec / validation / alias developments or stated as premises.',
- 'level_text': 'Coq theorems, each about EVERY state of the engine model for ONE call (no sampling; premises: the call does not panic, and where a '
-               'packet id must identify its operation the simple pid_consistent, both implied by the engine invariant WF): acknowledgement handlers '
+ 'level_text': 'Coq theorems, each about EVERY state of the engine model for ONE call (no sampling; premises: the call does not panic, and where a packet id '
+               'must identify its operation the simple pid_consistent, both implied by the engine invariant WF): acknowledgement handlers '
                '(C04_unknown_ack_rejected, C04_puback_needs_qos1, C04_pubcomp_needs_pubrel, C04_pubrec_success, C04_suback_needs_matching_subscribe; '
                'C04_puback_completes / C04_pubrec_failure_completes / C04_pubcomp_completes + C04_released_frees: exactly that operation completes with '
                'exactly that ack, its id leaves s_alloc / s_ppub / s_pnon, no queue changes, the timeout heap is cleaned lazily); connection close '
-               '(C04_close_requeues: new resubmit queue = [seated DUP publish not awaiting an ack] ++ old queue ++ surviving pending publishes in id '
-               'order, each with DUP:=1 and unchanged id / PUBREL slot / content, every other packet untouched; C04_close_failures: completions fired by '
-               'a close are only ConnectionClosed / OfflineQueuePolicyFailed for a packet the policy table rejects / MaxInterruptedRetriesExceeded); '
-               'session handling at CONNACK (C04_session_present_keeps: queues sorted, operations outside the user queue untouched, ids kept; '
-               'C04_session_absent_restarts: policy-passing resubmits move to the user queue with DUP:=0, id unbound, PUBREL slot cleared, the rejected '
-               'ones are failed with OfflineQueuePolicyFailed and exactly those, s_alloc and the inbound QoS 2 set emptied); frame theorem '
-               'C04_dup_only_by_close (+ C04_first_binding_keeps_content, C04_same_packets_trans): every event other than EvClose and an EvData in '
-               'PendingConnack leaves packet and bound id of every surviving operation unchanged except the first packet-id binding; encoder input '
-               '(C04_seat_encodes_wire_packet: a seated operation is encoded as its PUBREL when the PUBREL slot is set, as its own packet otherwise; '
-               'C04_seat_skips_completed: the id of a completed operation is dropped without encoding anything). For well-formed states / run level '
-               '(all event histories, through the WF invariant): C04_wf_close_requeues, C04_wf_session_no_panic, C04_wf_session_present_keeps, '
-               'C04_reachable_close_requeues. RUN LEVEL, the sequence of transmissions of ONE operation over a whole history (EngineProofs/DeliveryWire*.v, '
-               '3500 lines; premises: component invariants comps_ok, ok_cfg, ok_event, and ok_submit = submitted PUBLISH packets carry DUP=0, which '
-               'the clients validation guarantees): the delivery log of a history lists every encoder construction WITH its operation id, every '
-               'completed write, connection open / close / reset, the processed incoming packets (which CONNACK ran the session rules, which PUBREC '
-               'set the PUBREL slot of which operation) and the submissions; C04_run_machine_accepts: for EVERY history and EVERY operation id the '
-               'per-operation reference machine (the wire-level statement as a state machine: not-sent / seated / pending / interrupted / released / '
-               'gone) accepts the log, and a state relation J is an invariant (proved through every engine function; intermediate states of the '
-               'service loop and of the packet loop via WF + the placement invariant PL). Read off the accepted language, each for every history: '
-               'C04_run_first_transmission (the first PUBLISH handed to the encoder for a submitted QoS 1/2 publish has DUP=0, an identifier in '
-               '1..65535 and the submitted content), C04_run_no_second_publish (between two PUBLISH constructions of an operation there is a '
-               'connection close / open / reset: never twice within one connection), C04_run_pubrel_after_pubrec (after a processed PUBREC that set '
+               '(C04_close_requeues: new resubmit queue = [seated DUP publish not awaiting an ack] ++ old queue ++ surviving pending publishes in id order, '
+               'each with DUP:=1 and unchanged id / PUBREL slot / content, every other packet untouched; C04_close_failures: completions fired by a close are '
+               'only ConnectionClosed / OfflineQueuePolicyFailed for a packet the policy table rejects / MaxInterruptedRetriesExceeded); session handling at '
+               'CONNACK (C04_session_present_keeps: queues sorted, operations outside the user queue untouched, ids kept; C04_session_absent_restarts: '
+               'policy-passing resubmits move to the user queue with DUP:=0, id unbound, PUBREL slot cleared, the rejected ones are failed with '
+               'OfflineQueuePolicyFailed and exactly those, s_alloc and the inbound QoS 2 set emptied); frame theorem C04_dup_only_by_close (+ '
+               'C04_first_binding_keeps_content, C04_same_packets_trans): every event other than EvClose and an EvData in PendingConnack leaves packet and '
+               'bound id of every surviving operation unchanged except the first packet-id binding; encoder input (C04_seat_encodes_wire_packet: a seated '
+               'operation is encoded as its PUBREL when the PUBREL slot is set, as its own packet otherwise; C04_seat_skips_completed: the id of a completed '
+               'operation is dropped without encoding anything). For well-formed states / run level (all event histories, through the WF invariant): '
+               'C04_wf_close_requeues, C04_wf_session_no_panic, C04_wf_session_present_keeps, C04_reachable_close_requeues. RUN LEVEL, the sequence of '
+               'transmissions of ONE operation over a whole history (EngineProofs/DeliveryWire*.v, 3500 lines; premises: component invariants comps_ok, '
+               'ok_cfg, ok_event, and ok_submit = submitted PUBLISH packets carry DUP=0, which the clients validation guarantees): the delivery log of a '
+               'history lists every encoder construction WITH its operation id, every completed write, connection open / close / reset, the processed incoming '
+               'packets (which CONNACK ran the session rules, which PUBREC set the PUBREL slot of which operation) and the submissions; '
+               'C04_run_machine_accepts: for EVERY history and EVERY operation id the per-operation reference machine (the wire-level statement as a state '
+               'machine: not-sent / seated / pending / interrupted / released / gone) accepts the log, and a state relation J is an invariant (proved through '
+               'every engine function; intermediate states of the service loop and of the packet loop via WF + the placement invariant PL). Read off the '
+               'accepted language, each for every history: C04_run_first_transmission (the first PUBLISH handed to the encoder for a submitted QoS 1/2 publish '
+               'has DUP=0, an identifier in 1..65535 and the submitted content), C04_run_no_second_publish (between two PUBLISH constructions of an operation '
+               'there is a connection close / open / reset: never twice within one connection), C04_run_pubrel_after_pubrec (after a processed PUBREC that set '
                'its PUBREL slot everything handed to the encoder for the operation is the PUBREL with the acknowledged identifier, on this and later '
-               'connections, until a CONNACK without session), C04_run_retransmission (a DUP=1 PUBLISH: the CONNACK of the current connection '
-               'reported session present, the PUBLISH was handed to the encoder with the SAME identifier and completely written on an EARLIER '
-               'connection, same content), C04_run_restart (after a CONNACK without session the next packet handed to the encoder for the operation '
-               'is its PUBLISH with DUP=0), C04_run_nothing_after_completion (once an operation id is in the completions of a step no later step '
-               'hands a packet of it to the encoder; no premise at all); C04_instance_* = the same, closed, for the concrete engine; witnesses by '
-               'computation C04_wire_qos2_example (QoS 2 across three connections), C04_wire_qos1_dup_example, C04_wire_pubrel_twice_example (a '
-               'repeated PUBREC makes the PUBREL go out twice within ONE connection, so at-most-one-PUBREL-per-connection is false of the model: it '
-               'is one per processed PUBREC, which the monitor mon_c04 also tolerates). Still NOT proved (partial): (1) the count bound on PUBREL '
-               'constructions (at most one per processed PUBREC / resumed connection), (2) completeness of the handshake at run level (success only '
-               'after PUBACK / PUBREC-then-PUBCOMP carrying the current identifier: only the one-step C04_*_completes theorems, plus - from the '
-               'accepted machine - that a PUBREC sets the PUBREL slot only while the PUBLISH is pending and carries the identifier it was '
-               'written with), (3) construction log -> bytes on the wire is C02_run_wire_stream, not restated here. The only premise about the '
-               'operation in the run theorems is submitted i (dlog h) = its id was given to a submitted QoS 1/2 PUBLISH somewhere in the '
-               'history; that the submission precedes everything handed to the encoder for it is PROVED (the machine rejects a submission after '
-               'a construction). The extracted automaton mon_c04 keeps judging the implementation trace of every sampled history',
+               'connections, until a CONNACK without session), C04_run_retransmission (a DUP=1 PUBLISH: the CONNACK of the current connection reported session '
+               'present, the PUBLISH was handed to the encoder with the SAME identifier and completely written on an EARLIER connection, same content), '
+               'C04_run_restart (after a CONNACK without session the next packet handed to the encoder for the operation is its PUBLISH with DUP=0), '
+               'C04_run_nothing_after_completion (once an operation id is in the completions of a step no later step hands a packet of it to the encoder; no '
+               'premise at all); C04_instance_* = the same, closed, for the concrete engine; witnesses by computation C04_wire_qos2_example (QoS 2 across '
+               'three connections), C04_wire_qos1_dup_example, C04_wire_pubrel_twice_example (a repeated PUBREC makes the PUBREL go out twice within ONE '
+               'connection, so at-most-one-PUBREL-per-connection is false of the model: it is one per processed PUBREC, which the monitor mon_c04 also '
+               'tolerates). Still NOT proved (partial): (1) the count bound on PUBREL constructions (at most one per processed PUBREC / resumed connection), '
+               '(2) completeness of the handshake at run level (success only after PUBACK / PUBREC-then-PUBCOMP carrying the current identifier: only the '
+               'one-step C04_*_completes theorems, plus - from the accepted machine - that a PUBREC sets the PUBREL slot only while the PUBLISH is pending and '
+               'carries the identifier it was written with), (3) construction log -> bytes on the wire is C02_run_wire_stream, not restated here. The only '
+               'premise about the operation in the run theorems is submitted i (dlog h) = its id was given to a submitted QoS 1/2 PUBLISH somewhere in the '
+               'history; that the submission precedes everything handed to the encoder for it is PROVED (the machine rejects a submission after a '
+               'construction). The extracted automaton mon_c04 keeps judging the implementation trace of every sampled history',
  'technique': 'machine-checked proof in Coq over the engine model + lock-step correspondence of the extracted model with the implementation + extracted '
               'monitors on the implementation trace'}
